@@ -57,7 +57,7 @@ pub fn stream_encode(p: &BrotliEncoderParams, input: &[u8], chunk: usize) -> Res
         let mut s = BrotliEncoderStateStruct::new(StandardAlloc::default());
         s.params = p.clone();
         let mut out: Vec<u8> = Vec::new();
-        let mut buf = vec![0u8; 1 << 16];
+        let mut buf = vec![0u8; if input.len() < 2048 { 4096 } else { 1 << 16 }];
         let mut pos = 0usize;
         let mut steps = 0usize;
         let limit = 64 + 4 * (input.len() / chunk.max(1) + input.len() / buf.len() + 2);
@@ -237,6 +237,29 @@ pub fn gen_bytes(n: usize, gen: u64) -> Vec<u8> {
 
 fn b(x: bool) -> u8 { x as u8 }
 
+/// at most 4 violations per signature are kept (so that a rare signature is never crowded out by a
+/// frequent one); every occurrence is counted in `violations.<signature>`
+trait Viol { fn viol(&mut self, signature: &str, what: &str, case_json: String); }
+impl Viol for Report {
+    fn viol(&mut self, signature: &str, what: &str, case_json: String) {
+        self.count(&format!("violations.{}", signature));
+        if self.violations.iter().filter(|x| x.signature == signature).count() < 4 {
+            self.violations.push(Violation { signature: signature.to_string(), what: what.to_string(), case: case_json });
+        }
+    }
+}
+fn merge_rep(dst: &mut Report, mut src: Report) {
+    let vs = std::mem::take(&mut src.violations);
+    for v in vs {
+        if dst.violations.iter().filter(|x| x.signature == v.signature).count() < 4 { dst.violations.push(v); }
+    }
+    dst.merge(src);
+}
+
+fn tick(label: &str, t0: &std::time::Instant) {
+    if std::env::var("VERIF_TIMING").is_ok() { eprintln!("[header] {:>8.2}s {}", t0.elapsed().as_secs_f64(), label); }
+}
+
 #[derive(Clone, Copy)]
 struct Cfg { q: i32, lgwin: i32, lw: bool, cat: bool, app: bool, dict: bool, magic: bool, hint: u64 }
 impl Cfg {
@@ -271,7 +294,7 @@ fn c15_case(c: &Cfg, input: &[u8], lines: &mut Vec<(String, String)>, rep: &mut 
         Ok(o) => o,
         Err(e) => {
             lines.push((format!("header stream {} {} -", c.line(), hex(input)), e.clone()));
-            rep.violation(&format!("header:c15:encoder-{}", if e == "panic" { "panic" } else { "failed" }), &e, c.json(input));
+            rep.viol(&format!("header:c15:encoder-{}", if e == "panic" { "panic" } else { "failed" }), &e, c.json(input));
             return;
         }
     };
@@ -282,7 +305,7 @@ fn c15_case(c: &Cfg, input: &[u8], lines: &mut Vec<(String, String)>, rep: &mut 
     let (declared, large) = match wb {
         Some(x) => x,
         None => {
-            rep.violation("header:c15:unreadable-wbits", "the RFC reader rejects the window bits", c.json(input));
+            rep.viol("header:c15:unreadable-wbits", "the RFC reader rejects the window bits", c.json(input));
             (0, false)
         }
     };
@@ -302,10 +325,10 @@ fn c15_case(c: &Cfg, input: &[u8], lines: &mut Vec<(String, String)>, rep: &mut 
     // ---- oracles
     let want = spec_declared(c.q, c.lgwin, c.lw);
     if wb.is_some() && declared != want {
-        rep.violation("header:c15:declared-window", &format!("declared lgwin {} != clamp(requested) {}", declared, want), c.json(input));
+        rep.viol("header:c15:declared-window", &format!("declared lgwin {} != clamp(requested) {}", declared, want), c.json(input));
     }
     if wb.is_some() && large != c.lw {
-        rep.violation("header:c15:large-header-mismatch", &format!("large-window header {} but large_window requested {}", large, c.lw), c.json(input));
+        rep.viol("header:c15:large-header-mismatch", &format!("large-window header {} but large_window requested {}", large, c.lw), c.json(input));
     }
     rep.count(&format!("c15.header_bits.{}", nbits));
     if c.magic {
@@ -314,7 +337,7 @@ fn c15_case(c: &Cfg, input: &[u8], lines: &mut Vec<(String, String)>, rep: &mut 
             Some(m) if is_magic => {
                 let ok = m[2] == spec_mode_byte(c.cat, c.app, c.dict) && m[3] == brotli::VERSION && base128_decode(&m[4..]) == Some(hint_eff);
                 if !ok {
-                    rep.violation("header:c15:magic-content", &format!("magic block payload {} does not state mode {:02x}, version {}, size hint {}", hex(m), spec_mode_byte(c.cat, c.app, c.dict), brotli::VERSION, hint_eff), c.json(input));
+                    rep.viol("header:c15:magic-content", &format!("magic block payload {} does not state mode {:02x}, version {}, size hint {}", hex(m), spec_mode_byte(c.cat, c.app, c.dict), brotli::VERSION, hint_eff), c.json(input));
                 } else {
                     rep.count("c15.magic.ok");
                     rep.count(&format!("c15.magic.hint_bytes.{}", m.len() - 4));
@@ -323,11 +346,11 @@ fn c15_case(c: &Cfg, input: &[u8], lines: &mut Vec<(String, String)>, rep: &mut 
             _ => {
                 let qc = c.q.clamp(0, 11);
                 let sig = if qc <= 1 && !c.cat { "header:c15:magic-missing:q0-q1-fast-path" } else { "header:c15:magic-missing" };
-                rep.violation(sig, "magic_number requested but the stream does not start with the magic metadata block", c.json(input));
+                rep.viol(sig, "magic_number requested but the stream does not start with the magic metadata block", c.json(input));
             }
         }
     } else if is_magic {
-        rep.violation("header:c15:magic-unrequested", "magic block present although magic_number is off", c.json(input));
+        rep.viol("header:c15:magic-unrequested", "magic block present although magic_number is off", c.json(input));
     }
     if !decode { rep.nontrivial += 1; return; }
     // libbrotlidec without the large-window option accepts iff not large-window
@@ -335,19 +358,20 @@ fn c15_case(c: &Cfg, input: &[u8], lines: &mut Vec<(String, String)>, rep: &mut 
         let max = input.len() + (1 << 16);
         let plain = gdec::decode(&out, false, max);
         match (&plain, c.lw) {
-            (gdec::GResult::Ok(v), false) => { if v != input { rep.violation("header:c15:decode-mismatch", "libbrotlidec decoded different bytes", c.json(input)); } }
-            (gdec::GResult::Ok(_), true) => rep.violation("header:c15:large-accepted-by-plain-decoder", "libbrotlidec without the large-window option accepted a large-window stream", c.json(input)),
-            (_, false) => rep.violation("header:c15:plain-decoder-rejects", "libbrotlidec (no large-window option) rejects a stream made without large_window", c.json(input)),
+            (gdec::GResult::Ok(v), false) => { if v != input { rep.viol("header:c15:decode-mismatch", "libbrotlidec decoded different bytes", c.json(input)); } }
+            (gdec::GResult::Ok(_), true) => rep.viol("header:c15:large-accepted-by-plain-decoder", "libbrotlidec without the large-window option accepted a large-window stream", c.json(input)),
+            (_, false) => rep.viol("header:c15:plain-decoder-rejects", "libbrotlidec (no large-window option) rejects a stream made without large_window", c.json(input)),
             (_, true) => rep.count("c15.large_rejected_by_plain_decoder"),
         }
     }
     match dec::decode_both(&out, c.lw, input) {
         Ok(()) => { rep.nontrivial += 1; }
-        Err(e) => rep.violation("header:c15:undecodable", &e, c.json(input)),
+        Err(e) => rep.viol("header:c15:undecodable", &e, c.json(input)),
     }
 }
 
 fn run_c15(args: &Args, corr: &mut Corr, rep: &mut Report) {
+    let t0 = std::time::Instant::now();
     let thorough = args.tier == "thorough";
     let seed = args.seed;
     // the whole grid: task = (quality, lgwin)
@@ -379,8 +403,9 @@ fn run_c15(args: &Args, corr: &mut Corr, rep: &mut Report) {
     });
     for (lines, r) in res {
         for (a, bb) in lines { corr.case(&a, &bb); }
-        rep.merge(r);
+        merge_rep(rep, r);
     }
+    tick("c15 grid done", &t0);
     // inputs with matches at the far end of the window: a decoder limited to the declared window
     let mut far: Vec<(i32, i32, bool, usize)> = vec![];
     for q in 0..=11 {
@@ -406,23 +431,24 @@ fn run_c15(args: &Args, corr: &mut Corr, rep: &mut Report) {
         let c = Cfg { q, lgwin, lw, cat: false, app: false, dict: true, magic: false, hint: 0 };
         rep.evaluations += 1;
         match stream_encode(&c.params(), &input, 60000) {
-            Err(e) => rep.violation("header:c15:encoder-failed", &e, c.json(&input)),
+            Err(e) => rep.viol("header:c15:encoder-failed", &e, c.json(&input)),
             Ok(out) => {
                 let mut r = BitReader::new(&out);
                 let wb = read_wbits(&mut r);
                 if wb != Some((spec_declared(q, lgwin, lw), lw)) {
-                    rep.violation("header:c15:declared-window", &format!("declared {:?}", wb), c.json(&input));
+                    rep.viol("header:c15:declared-window", &format!("declared {:?}", wb), c.json(&input));
                 }
                 if out.len() < input.len() / 2 { rep.count("c15.far.used_long_distance"); }
                 match dec::decode_both(&out, lw, &input) {
                     Ok(()) => { rep.nontrivial += 1; rep.count("c15.far.decoded"); }
-                    Err(e) => rep.violation("header:c15:window-exceeded-or-undecodable", &e, c.json(&input)),
+                    Err(e) => rep.viol("header:c15:window-exceeded-or-undecodable", &e, c.json(&input)),
                 }
             }
         }
         rep
     });
-    for r in res { rep.merge(r); }
+    for r in res { merge_rep(rep, r); }
+    tick("c15 far done", &t0);
     // base-128 (hook)
     let mut vals: Vec<u64> = (0..300).collect();
     for k in 0..64 { let p = 1u64 << k; vals.extend_from_slice(&[p.wrapping_sub(1), p, p + 1]); }
@@ -434,7 +460,7 @@ fn run_c15(args: &Args, corr: &mut Corr, rep: &mut Report) {
         corr.case(&format!("header b128 {}", v), &hex(&arr[..cnt]));
         rep.evaluations += 1;
         if base128_decode(&arr[..cnt]) != Some(v) || cnt > 10 {
-            rep.violation("header:c15:base128", "encode_base_128 does not round-trip", format!("{{\"value\":\"{}\"}}", v));
+            rep.viol("header:c15:base128", "encode_base_128 does not round-trip", format!("{{\"value\":\"{}\"}}", v));
         } else { rep.nontrivial += 1; rep.count(&format!("c15.b128.len.{}", cnt)); }
     }
 }
@@ -518,12 +544,12 @@ fn oneshot_case(c: &OsCase, seed: u64, idx: usize, lines: &mut Vec<(String, Stri
     rep.evaluations += 1;
     let big = match oneshot_rust(c.q, c.lgwin, &input, bound + 64) {
         Ok(x) => x,
-        Err(e) => { rep.violation("header:c08:oneshot-panic", &e, case(bound + 64, "rust")); return; }
+        Err(e) => { rep.viol("header:c08:oneshot-panic", &e, case(bound + 64, "rust")); return; }
     };
-    if big.0 != 1 { rep.violation("header:c08:oneshot-fails-above-bound", "buffer >= bound but the call reports failure", case(bound + 64, "rust")); return; }
-    if big.1 > bound { rep.violation("header:c08:oneshot-exceeds-bound", &format!("wrote {} > bound {}", big.1, bound), case(bound + 64, "rust")); }
+    if big.0 != 1 { rep.viol("header:c08:oneshot-fails-above-bound", "buffer >= bound but the call reports failure", case(bound + 64, "rust")); return; }
+    if big.1 > bound { rep.viol("header:c08:oneshot-exceeds-bound", &format!("wrote {} > bound {}", big.1, bound), case(bound + 64, "rust")); }
     let large = c.lgwin > 24;
-    if let Err(e) = dec::decode_both(&big.2, large, &input) { rep.violation("header:c08:oneshot-undecodable", &e, case(bound + 64, "rust")); return; }
+    if let Err(e) = dec::decode_both(&big.2, large, &input) { rep.viol("header:c08:oneshot-undecodable", &e, case(bound + 64, "rust")); return; }
     rep.nontrivial += 1;
     let stored = n > 0 && is_stored(&big.2);
     let t_tok = if stored { "big".to_string() } else { big.1.to_string() };
@@ -532,13 +558,13 @@ fn oneshot_case(c: &OsCase, seed: u64, idx: usize, lines: &mut Vec<(String, Stri
         // the framing alone must yield the input, and the chunking must follow the 2^24 rule
         match framing_payload(&big.2) {
             Some((w, blocks, payload)) => {
-                if payload != input || w != 10 { rep.violation("header:c08:stored-stream-wrong", "stored stream does not carry the input", case(bound + 64, "rust")); }
+                if payload != input || w != 10 { rep.viol("header:c08:stored-stream-wrong", "stored stream does not carry the input", case(bound + 64, "rust")); }
                 let raws: Vec<usize> = blocks.iter().filter_map(|bl| if let Block::Raw(x) = bl { Some(x.len()) } else { None }).collect();
                 let want: Vec<usize> = { let mut v = vec![]; let mut left = n; while left > 0 { let ch = left.min(1 << 24); v.push(ch); left -= ch; } v };
-                if raws != want { rep.violation("header:c08:stored-chunking", &format!("chunks {:?}", raws), case(bound + 64, "rust")); }
+                if raws != want { rep.viol("header:c08:stored-chunking", &format!("chunks {:?}", raws), case(bound + 64, "rust")); }
                 rep.count(&format!("c08.stored.chunks.{}", raws.len()));
             }
-            None => rep.violation("header:c08:stored-stream-unparsable", "framing reader rejects the stored stream", case(bound + 64, "rust")),
+            None => rep.viol("header:c08:stored-stream-unparsable", "framing reader rejects the stored stream", case(bound + 64, "rust")),
         }
         if let Some(g) = c.gen {
             let o = &big.2;
@@ -561,28 +587,28 @@ fn oneshot_case(c: &OsCase, seed: u64, idx: usize, lines: &mut Vec<(String, Stri
         for api in ["rust", "c"] {
             rep.evaluations += 1;
             let (ret, size, bytes, intact) = if api == "rust" {
-                match oneshot_rust(c.q, c.lgwin, &input, cap) { Ok((r, s, by)) => (r, s, by, true), Err(e) => { rep.violation("header:c08:oneshot-panic", &e, case(cap, api)); continue; } }
+                match oneshot_rust(c.q, c.lgwin, &input, cap) { Ok((r, s, by)) => (r, s, by, true), Err(e) => { rep.viol("header:c08:oneshot-panic", &e, case(cap, api)); continue; } }
             } else { oneshot_c(c.q, c.lgwin, &input, cap) };
-            if !intact { rep.violation("header:c08:writes-past-buffer", "canary behind the output buffer overwritten", case(cap, api)); }
+            if !intact { rep.viol("header:c08:writes-past-buffer", "canary behind the output buffer overwritten", case(cap, api)); }
             let kind;
             if ret != 0 {
-                if size > cap { rep.violation("header:c08:size-exceeds-buffer", &format!("reports {} bytes in a {}-byte buffer", size, cap), case(cap, api)); }
-                if size > bound { rep.violation("header:c08:oneshot-exceeds-bound", &format!("wrote {} > bound {}", size, bound), case(cap, api)); }
+                if size > cap { rep.viol("header:c08:size-exceeds-buffer", &format!("reports {} bytes in a {}-byte buffer", size, cap), case(cap, api)); }
+                if size > bound { rep.viol("header:c08:oneshot-exceeds-bound", &format!("wrote {} > bound {}", size, bound), case(cap, api)); }
                 if bytes == big.2 { kind = if n == 0 { "empty" } else if stored { "stored" } else { "stream" }; }
                 else if n > 0 && is_stored(&bytes) {
                     kind = "stored";
-                    if framing_payload(&bytes).map(|x| x.2) != Some(input.clone()) { rep.violation("header:c08:stored-stream-wrong", "stored stream does not carry the input", case(cap, api)); }
+                    if framing_payload(&bytes).map(|x| x.2) != Some(input.clone()) { rep.viol("header:c08:stored-stream-wrong", "stored stream does not carry the input", case(cap, api)); }
                 } else {
                     kind = "other";
-                    if let Err(e) = dec::decode_both(&bytes, large, &input) { rep.violation("header:c08:oneshot-undecodable", &e, case(cap, api)); }
+                    if let Err(e) = dec::decode_both(&bytes, large, &input) { rep.viol("header:c08:oneshot-undecodable", &e, case(cap, api)); }
                 }
                 rep.count(&format!("c08.oneshot.ok.{}", kind));
             } else {
-                if cap >= bound { rep.violation("header:c08:oneshot-fails-above-bound", "buffer >= bound but the call reports failure", case(cap, api)); }
+                if cap >= bound { rep.viol("header:c08:oneshot-fails-above-bound", "buffer >= bound but the call reports failure", case(cap, api)); }
                 kind = if cap == 0 { "zero-cap" } else { "too-small" };
                 rep.count(&format!("c08.oneshot.fail.{}", kind));
             }
-            if cap == 0 && ret != 0 { rep.violation("header:c08:zero-buffer-success", "success with an empty buffer", case(cap, api)); }
+            if cap == 0 && ret != 0 { rep.viol("header:c08:zero-buffer-success", "success with an empty buffer", case(cap, api)); }
             // on failure *encoded_size is 0 except for the zero-capacity early return (left untouched = 0)
             lines.push((format!("header oneshot {} {} {}", n, cap, t_tok), format!("{} {} {}", ret, size, kind)));
         }
@@ -590,6 +616,7 @@ fn oneshot_case(c: &OsCase, seed: u64, idx: usize, lines: &mut Vec<(String, Stri
 }
 
 fn run_c08(args: &Args, corr: &mut Corr, rep: &mut Report) {
+    let t0 = std::time::Instant::now();
     let thorough = args.tier == "thorough";
     let seed = args.seed;
     // ---- (a) the bound formula, digest protocol
@@ -609,28 +636,33 @@ fn run_c08(args: &Args, corr: &mut Corr, rep: &mut Report) {
             for n in s..s + cnt {
                 rep.evaluations += 1;
                 let v = BrotliEncoderMaxCompressedSize(n as usize) as u64;
-                if n < (1 << 54) && v != spec_bound(n) { rep.violation("header:c08:bound-formula", &format!("Max({}) = {} != closed form {}", n, v, spec_bound(n)), format!("{{\"n\":\"{}\"}}", n)); }
-                if n > s && v < prev && n < (1 << 63) { rep.violation("header:c08:bound-not-monotone", &format!("Max({}) = {} < Max({}) = {}", n, v, n - 1, prev), format!("{{\"n\":\"{}\"}}", n)); }
-                if v < n && n < (1 << 63) { rep.violation("header:c08:bound-below-input", "bound smaller than the input", format!("{{\"n\":\"{}\"}}", n)); }
+                if n < (1 << 54) && v != spec_bound(n) { rep.viol("header:c08:bound-formula", &format!("Max({}) = {} != closed form {}", n, v, spec_bound(n)), format!("{{\"n\":\"{}\"}}", n)); }
+                if n > s && v < prev && n < (1 << 63) { rep.viol("header:c08:bound-not-monotone", &format!("Max({}) = {} < Max({}) = {}", n, v, n - 1, prev), format!("{{\"n\":\"{}\"}}", n)); }
+                if v < n && n < (1 << 63) { rep.viol("header:c08:bound-below-input", "bound smaller than the input", format!("{{\"n\":\"{}\"}}", n)); }
                 prev = v;
                 rep.nontrivial += 1;
             }
         }
         (lines, rep)
     });
-    for (lines, r) in res { for (a, bb) in lines { corr.case(&a, &bb); } rep.merge(r); }
+    for (lines, r) in res { for (a, bb) in lines { corr.case(&a, &bb); } merge_rep(rep, r); }
+    tick("c08 bound done", &t0);
     // the top of the range: wrap to 0 and the `+ magic_size` overflow zone (values only; release arithmetic)
     let mut tops: Vec<u64> = (0..70).map(|d| u64::MAX - d).collect();
-    {   // first n whose result wraps
-        let (mut lo, mut hi) = (1u64 << 63, u64::MAX);
-        while lo < hi { let mid = lo + (hi - lo) / 2; if BrotliEncoderMaxCompressedSize(mid as usize) == 0 { hi = mid } else { lo = mid + 1 } }
+    let first_zero;
+    {   // first n from which the result wraps to 0 for good (the 16 values before it are the
+        // `+ magic_size` overflow zone, whose first value also wraps to exactly 0)
+        let z = |n: u64| BrotliEncoderMaxCompressedSize(n as usize) == 0 && BrotliEncoderMaxCompressedSize((n + 20) as usize) == 0;
+        let (mut lo, mut hi) = (1u64 << 63, u64::MAX - 20);
+        while lo < hi { let mid = lo + (hi - lo) / 2; if z(mid) { hi = mid } else { lo = mid + 1 } }
         for d in 0..80 { tops.push(lo - 40 + d); }
-        rep.sample(format!("first n with Max(n) = 0: {}", lo));
+        rep.sample(format!("first n with Max(n) = 0 from there on: {}", lo));
+        first_zero = lo;
     }
     for n in tops {
         let v = BrotliEncoderMaxCompressedSize(n as usize);
         // the model flags the debug-build overflow with `!`; a release build wraps silently
-        let over = v != 0 && (v as u64) < n;
+        let over = (v as u64) < n && n < first_zero;
         corr.case(&format!("header boundv {}", n), &format!("{}{}", v, if over { "!" } else { "" }));
         if over { rep.count("c08.bound.overflow_zone"); }
         if v == 0 { rep.count("c08.bound.wrap_to_zero"); }
@@ -668,7 +700,8 @@ fn run_c08(args: &Args, corr: &mut Corr, rep: &mut Report) {
         oneshot_case(&cases[i], seed, i, &mut lines, &mut rep);
         (lines, rep)
     });
-    for (lines, r) in res { for (a, bb) in lines { corr.case(&a, &bb); } rep.merge(r); }
+    for (lines, r) in res { for (a, bb) in lines { corr.case(&a, &bb); } merge_rep(rep, r); }
+    tick("c08 oneshot done", &t0);
     // ---- (d) never-flushed stream at q >= 2 within the bound
     let mut scases: Vec<(Cfg, usize, u32, usize)> = vec![];
     let hints: [u64; 7] = [0, (1u64 << 32) - 1, 1 << 35, 1 << 42, 1 << 49, 1 << 56, 1 << 63];
@@ -699,12 +732,12 @@ fn run_c08(args: &Args, corr: &mut Corr, rep: &mut Report) {
         rep.evaluations += 1;
         let bound = BrotliEncoderMaxCompressedSize(n);
         match stream_encode(&c.params(), &input, chunk) {
-            Err(e) => rep.violation("header:c08:stream-failed", &e, c.json(&input)),
+            Err(e) => rep.viol("header:c08:stream-failed", &e, c.json(&input)),
             Ok(out) => {
                 rep.nontrivial += 1;
                 if out.len() > bound {
                     let sig = if c.hint >= (1 << 32) { "header:c08:stream-exceeds-bound:size_hint-above-u32" } else { "header:c08:stream-exceeds-bound" };
-                    rep.violation(sig, &format!("never-flushed stream of {} input bytes is {} bytes > advertised bound {}", n, out.len(), bound),
+                    rep.viol(sig, &format!("never-flushed stream of {} input bytes is {} bytes > advertised bound {}", n, out.len(), bound),
                         format!("{{\"quality\":{},\"lgwin\":{},\"large_window\":{},\"catable\":{},\"appendable\":{},\"magic_number\":{},\"size_hint\":\"{}\",\"n\":{},\"content\":{},\"chunk\":{},\"seed\":{},\"idx\":{}}}", c.q, c.lgwin, c.lw, c.cat, c.app, c.magic, c.hint, n, kind, chunk.min(1 << 40), seed, i));
                 }
                 let slack = bound as i64 - out.len() as i64;
@@ -713,7 +746,8 @@ fn run_c08(args: &Args, corr: &mut Corr, rep: &mut Report) {
         }
         rep
     });
-    for r in res { rep.merge(r); }
+    for r in res { merge_rep(rep, r); }
+    tick("c08 stream done", &t0);
 }
 
 pub fn run_cmd(args: &Args) {
